@@ -52,43 +52,27 @@ WITNESS(version_parse);
 #endif
 
 /* Statement: "malformed version strings are refused" (and, implicitly, well-formed
- * ones are understood).  Accepted exactly when well-formed (spec_wellformed); the three
- * numbers strtol converted are exactly the three components of the grammar (positions,
- * recorded by the libc model in m_conv_a/b) and tuple[] holds their decimal values.
- * The strings of the lenient-parser finding are carved out (VP_CARVE) -- group
- * version_parse_actual proves what happens on them.
+ * ones are understood).  Accepted exactly when well-formed; the three numbers strtol
+ * converted are exactly the three components of the grammar and tuple[] holds their
+ * decimal values (predicates in c14_vspec.c).  The strings of the lenient-parser
+ * finding are carved out (vp_pre) -- group version_parse_actual proves what happens
+ * on them.
  * The SAME declaration replaces version_parse in the callers' groups: everything a
  * caller must establish (terminated string, carve-out) is then asserted there. */
-#define VP_POST_OK(version, tuple) ( \
-	m_conv_a[0] == VP_A(version, 0) && m_conv_b[0] == VP_B(version, 0) && \
-	m_conv_a[1] == VP_A(version, 1) && m_conv_b[1] == VP_B(version, 1) && \
-	m_conv_a[2] == VP_A(version, 2) && m_conv_b[2] == VP_B(version, 2) && \
-	(tuple)[0] >= 0 && (unsigned long) (tuple)[0] == vp_dec_mag(version, m_conv_a[0], m_conv_b[0]) && \
-	(tuple)[1] >= 0 && (unsigned long) (tuple)[1] == vp_dec_mag(version, m_conv_a[1], m_conv_b[1]) && \
-	(tuple)[2] >= 0 && (unsigned long) (tuple)[2] == vp_dec_mag(version, m_conv_a[2], m_conv_b[2]))
-
 int c_version_parse(const char *version, int tuple[3])
-__CPROVER_requires(version == NULL || (spec_terminated(version) && VP_CARVE(version)))
+__CPROVER_requires(vp_pre(version))
 __CPROVER_requires(__CPROVER_is_fresh(tuple, 3 * sizeof(int)))
 __CPROVER_requires(DIAG_PRE_LEAF)
 __CPROVER_requires(WBIND(version_parse, VP_BIND(version)))
 __CPROVER_assigns(__CPROVER_object_whole(tuple), __CPROVER_errno, DIAG_FRAME, MODEL_FRAME)
 __CPROVER_ensures(__CPROVER_return_value == 0 || __CPROVER_return_value == -1)
-__CPROVER_ensures((__CPROVER_return_value == 0) == (version != NULL && VP_WELLFORMED(version)))
-__CPROVER_ensures(__CPROVER_return_value != 0 || VP_POST_OK(version, tuple))
+__CPROVER_ensures(vp_post_iff(version, __CPROVER_return_value))
+__CPROVER_ensures(vp_post_numbers(version, __CPROVER_return_value, tuple))
 __CPROVER_ensures(__CPROVER_return_value == 0 || g_err > __CPROVER_old(g_err))
 ;
 
-#define VA_POST_OK(version, tuple) ( \
-	m_conv_a[0] == VA_A(version, 0) && m_conv_b[0] == VA_B(version, 0) && \
-	m_conv_a[1] == VA_A(version, 1) && m_conv_b[1] == VA_B(version, 1) && \
-	m_conv_a[2] == VA_A(version, 2) && m_conv_b[2] == VA_B(version, 2) && \
-	(tuple)[0] == vp_actual_value(version, m_conv_a[0], m_conv_b[0], VA_NEG(version, 0)) && \
-	(tuple)[1] == vp_actual_value(version, m_conv_a[1], m_conv_b[1], VA_NEG(version, 1)) && \
-	(tuple)[2] == vp_actual_value(version, m_conv_a[2], m_conv_b[2], VA_NEG(version, 2)))
-
 /* The exact language accepted at the pinned commit, no carve-out: documents the
- * finding precisely (accepted <=> spec_actual) -- nothing outside L1..L4 slips in.
+ * finding precisely (accepted <=> spec_accepted) -- nothing outside L1..L4 slips in.
  * (--conversion-check is off in this group: L4 IS the narrowing conversion.) */
 int c_version_parse_actual(const char *version, int tuple[3])
 __CPROVER_requires(version == NULL || spec_terminated(version))
@@ -96,11 +80,11 @@ __CPROVER_requires(__CPROVER_is_fresh(tuple, 3 * sizeof(int)))
 __CPROVER_requires(DIAG_PRE_LEAF)
 __CPROVER_requires(WBIND(version_parse, VP_BIND(version)))
 __CPROVER_assigns(__CPROVER_object_whole(tuple), __CPROVER_errno, DIAG_FRAME, MODEL_FRAME)
-__CPROVER_ensures((__CPROVER_return_value == 0) == (version != NULL && VP_ACCEPTED(version)))
 __CPROVER_ensures(__CPROVER_return_value == 0 || __CPROVER_return_value == -1)
-__CPROVER_ensures(__CPROVER_return_value != 0 || VA_POST_OK(version, tuple))
+__CPROVER_ensures(va_post_iff(version, __CPROVER_return_value))
+__CPROVER_ensures(va_post_numbers(version, __CPROVER_return_value, tuple))
 /* every well-formed string is among the accepted ones */
-__CPROVER_ensures(version == NULL || !VP_WELLFORMED(version) || __CPROVER_return_value == 0)
+__CPROVER_ensures(version == NULL || !spec_wellformed(version) || __CPROVER_return_value == 0)
 ;
 
 static char h_buf[VP_N];
